@@ -102,8 +102,18 @@ class ForestGen:
                 add(Attr(AT["declaration"], FORM["flag"], 1))
             elif c == 8:
                 add(Attr(AT["accessibility"], FORM["data1"], self.r.choice([1, 2, 3])))
-            else:
+            elif self.chance(0.5):
                 add(Attr(AT["linkage_name"], FORM["string"], self.r.choice([b"_Z3foov", b"_ZN1A1bE"])))
+            else:
+                # vendor attributes (codes from DW_AT_lo_user up): inherited, shadowed and de-duplicated like any other
+                k = self.r.randint(0, 2)
+                if k == 0:
+                    add(Attr(AT["MIPS_linkage_name"], FORM["string"], self.r.choice([b"_Z3foov", b"_ZN1A1bE", b"_Z1gi"])))
+                elif k == 1:
+                    add(Attr(AT[self.r.choice(["GNU_all_call_sites", "GNU_all_tail_call_sites"])], FORM["flag"], 1))
+                else:
+                    add(Attr(AT["GNU_deleted"], FORM["flag"], self.r.choice([0, 1])))
+                self.label("vendor-attribute")
         return out
 
     # -- trees -------------------------------------------------------------------------
